@@ -393,7 +393,7 @@ HARNESSES = ST.STORE_OBLIGATIONS + [
     ob_stop_watch,
     ob_stop_watch_all,
     ob_late_registration_overtaken,
-] + SS.MESSAGE_RECEIVED_OBLIGATIONS
+] + SS.MESSAGE_RECEIVED_OBLIGATIONS + SS.DISPATCH_OBLIGATIONS + [SS.ob_check_received_refines]
 
 EXPECT_COVERS = {
     "ob_handle_offer": ["not-watched", "stop-offer", "offer"],
